@@ -18,6 +18,8 @@ apply_f = z3.Function('apply', Val, SeqVal, Val, Val)           # value returned
 dict_update_f = z3.Function('dict_update', Val, Val, Val)       # d.update(e) as a mathematical function
 EMPTY_DICT = Val.v_str(z3.IntVal(smt.str_code('<empty dict>')))
 
+PyRaise = PyRaise
+
 TEXT = {
     'chan': 'T3 pipes/queues: FIFO of whole messages; recv on an exhausted channel blocks while the peer is open and raises '
             'EOFError once it is closed; get_nowait/poll are non-blocking; send appends (may raise BrokenPipeError/OSError when '
@@ -198,17 +200,63 @@ def odict_class():
         d, other = a[0], a[1]
         ac = ex.abs_classes['ODict']
         ac.set(ex, d, 'content', dict_update_f(ac.get(ex, d, 'content'), odict_content(ex, other)))
+        add_shares(ex, d, spread_sources(ex, other))
         return NONE
 
     def copy_(ex, a, k):
-        return new_odict(ex, ex.abs_classes['ODict'].get(ex, a[0], 'content'))
+        d = new_odict(ex, ex.abs_classes['ODict'].get(ex, a[0], 'content'))
+        add_shares(ex, d, [a[0]])          # shallow copy: the values are the same objects
+        return d
     return AbsClass('ODict', fields={'content': Val}, methods={'update': update, 'copy': copy_},
                     text='a dict whose content is an opaque mathematical value; update(e) is the function dict_update')
+
+
+def _okey(d):
+    return smt.simp(d.key).sexpr()
+
+
+def shares_of(ex, d):
+    """the dicts whose inner (value) objects `d` may alias: a shallow copy / merge shares its values with its sources, a
+    deep copy shares nothing.  Tracked per path in python (identities of abstract dicts are literal keys)."""
+    return ex.ghost.setdefault('__odict_shares__', {}).get(_okey(d), [])
+
+
+def add_shares(ex, d, sources):
+    reg = ex.ghost.setdefault('__odict_shares__', {})
+    cur = list(reg.get(_okey(d), []))
+    for s in sources:
+        for x in [s] + list(shares_of(ex, s)):
+            if not any(_okey(x) == _okey(y) for y in cur):
+                cur.append(x)
+    reg[_okey(d)] = cur
+
+
+def spread_sources(ex, v):
+    """abstract dicts that a dict display {**a, **b} / an abstract dict passes on by reference"""
+    if isinstance(v, VAbs) and v.cls == 'ODict':
+        return [v]
+    if isinstance(v, VRef) and isinstance(ex.heap[v.addr], HDict):
+        out = []
+        for k, x in ex.heap[v.addr].items.items():
+            if isinstance(k, tuple):
+                out.extend(spread_sources(ex, x))
+        return out
+    return []
 
 
 def odict_content(ex, v):
     if isinstance(v, VAbs) and v.cls == 'ODict':
         return ex.abs_classes['ODict'].get(ex, v, 'content')
+    if isinstance(v, VRef) and isinstance(ex.heap[v.addr], HDict) and ex.heap[v.addr].items \
+            and all(isinstance(k, tuple) for k in ex.heap[v.addr].items):
+        # {**a, **b, ...}: left-to-right merge
+        parts = [odict_content(ex, x) for x in ex.heap[v.addr].items.values()]
+        cur = parts[0]
+        for nxt in parts[1:]:
+            cur = dict_update_f(cur, nxt)
+        if len(parts) == 1:
+            cur = dict_update_f(EMPTY_DICT, cur)
+        return cur
     if isinstance(v, VSym):
         return v.t
     if isinstance(v, VRef) and isinstance(ex.heap[v.addr], HDict) and not ex.heap[v.addr].items:
@@ -254,6 +302,22 @@ def opaque_call(ex, f, args, kwargs, node):
         # named keyword arguments: an interned record
         kw = Val.v_tup(smt.mk_list([Val.v_tup(smt.mk_list([Val.v_str(z3.IntVal(smt.str_code(str(kk)))), lower(vv, ex)]))
                                     for kk, vv in sorted(items.items(), key=lambda p: str(p[0]))]))
+    # T7 the target may mutate what it is handed: every abstract dict whose value objects are reachable from the keyword
+    # arguments (the dict itself is a fresh **kwargs dict, but a shallow copy/merge hands the callee the ORIGINAL value objects)
+    # may have a different deep content afterwards
+    if ex.ghost.get('target_mutates_arguments', True):
+        victims = []
+        for vv in items.values():
+            for src in spread_sources(ex, vv):
+                for x in list(shares_of(ex, src)) + ([src] if isinstance(vv, VRef) else []):
+                    if not any(_okey(x) == _okey(y) for y in victims):
+                        victims.append(x)
+        for x in victims:
+            ex.abs_classes['ODict'].set(ex, x, 'content', ex.fresh('mutated_by_target', Val))
+            ex.note('target may mutate ' + chan_tag(ex, x))
+        if star is not None and isinstance(star, VRef):
+            for addr in getattr(ex.heap[star.addr], 'shares', []):
+                ex.heap[addr].seq = ex.fresh('list_mutated_by_target', SeqVal)
     ft = lower(f, ex)
     calls = ex.ghost.get('calls')
     rec = Val.v_tup(smt.mk_list([ft, smt.mk_seq(seq), kw]))
